@@ -54,7 +54,11 @@ def item_word(rng, p_nth=0.2):
 
 
 def rand_script(rng, n):
-    return [rng.choice([0, 0, 1, 1, 2, item_word(rng, 1.0)]) for _ in range(n)]
+    s = [rng.choice([0, 0, 1, 1, 2, item_word(rng, 1.0)]) for _ in range(n)]
+    if rng.random() < 0.4:
+        # the rest through fold / rfold (for_each, sum, rev().for_each ...): ends the script
+        s = s[:rng.randint(0, len(s))] + [rng.choice([3, 4])]
+    return s
 
 
 def rand_nested_script(rng, n, max_inner):
@@ -1057,6 +1061,9 @@ def sim_deque(items, script, show=lambda x: x):
     items = list(items)
     out = []
     for w in script:
+        if w in (3, 4):
+            out += [f'Some({show(x)})' for x in (items if w == 3 else items[::-1])]
+            break
         if w == 0:
             out.append(f'Some({show(items.pop(0))})' if items else 'None')
         elif w == 1:
